@@ -4,6 +4,7 @@ package verifsim
 
 import (
 	"fmt"
+	"sort"
 	"net/url"
 	"regexp"
 	"strconv"
@@ -128,6 +129,39 @@ func scenC19(r *Run) {
 			r.Violate("C19", "defaults", "hook-never-run", "pressing p on an actor with a profile picture did not run the media hook")
 		} else if len(hook) > 0 && (lastExec.Path != hook[0] || len(lastExec.Args) != len(hook)) {
 			r.Violate("C19", "defaults", "hook-differs-from-configuration", fmt.Sprintf("media hook run as %q, configured %q", lastExec.Args, hook))
+		}
+	}
+	// started with `servitor feed <name>` for every feed whose name is out of the ordinary: the first
+	// thing the program does is look the name up, on an empty history
+	var oddNames []string
+	for name := range r.Job.Cfg.Feeds {
+		switch name {
+		case "f1", "f2", "solo", "empty", "odd":
+		default:
+			oddNames = append(oddNames, name)
+		}
+	}
+	sort.Strings(oddNames)
+	for _, name := range oddNames {
+		u2 := newUISession(r, 90, 25)
+		u2.Subcommand("feed", name)
+		if !r.Settle(60000) {
+			uiLiveness(r, u2, false)
+			return
+		}
+		for _, v := range r.S.Violations() {
+			if v.Rule == "M-panic" {
+				return
+			}
+		}
+		r.S.Probe("c19_started_with_oddly_named_feed")
+		if judged {
+			u2.mu.Lock()
+			failed := u2.subDone && u2.subErr != nil
+			u2.mu.Unlock()
+			if failed {
+				r.Violate("C19", "defaults", "configured-feed-not-found", fmt.Sprintf("starting with the configured feed %q failed: %v", name, u2.subErr))
+			}
 		}
 	}
 	// colours: every SGR colour in every frame is three components 0..255; judged files also match
